@@ -7,10 +7,11 @@ from cq import CQBase
 
 class C13Bridge(BridgeBase):
     pid = "C13"
-    quick_cap = 14000
+    quick_cap = 17000
     prefixes = ("C13.",)
     mc = [("SkywayBridge_mc", "SkywayBridge_sigs", ("quick", "thorough"))]
-    gens = [Gen("SkywayBridgeGen", "SkywayBridgeGen_sigs_cover", "bfs", tiers=("quick",), timeout=900, cap=12000),
+    gens = [Gen("SkywayBridgeGen", "SkywayBridgeGen_rekey_cover", "bfs", tiers=("quick", "thorough"), timeout=900, cap=3000),
+            Gen("SkywayBridgeGen", "SkywayBridgeGen_sigs_cover", "bfs", tiers=("quick",), timeout=900, cap=12000),
             Gen("SkywayBridgeGen", "SkywayBridgeGen_sigs_sim", "simulate", num=300, depth=14, tiers=("quick",), cap=1500),
             Gen("SkywayBridgeGen", "SkywayBridgeGen_sigs_cover", "bfs", tiers=("thorough",), timeout=900, cap=20000),
             Gen("SkywayBridgeGen", "SkywayBridgeGen_sigs_sim", "simulate", num=3000, depth=14, tiers=("thorough",), cap=15000)]
@@ -21,10 +22,11 @@ class C13Bridge(BridgeBase):
 
 class C13Queue(CQBase):
     pid = "C13"
-    quick_cap = 9000
+    quick_cap = 12000
     prefixes = ("C13.",)
     mc = [("ConsensusQueue_mc", "ConsensusQueue_ev", ("quick", "thorough"))]
     gens = [Gen("ConsensusQueueGen", "ConsensusQueueGen_prune_cover", "bfs", tiers=("quick",), timeout=900, cap=6000),
+            Gen("ConsensusQueueGen", "ConsensusQueueGen_electprune_cover", "bfs", tiers=("quick", "thorough"), timeout=600, cap=3000),
             Gen("ConsensusQueueGen", "ConsensusQueueGen_order_cover", "bfs", tiers=("quick", "thorough"), timeout=600, cap=4000),
             Gen("ConsensusQueueGen", "ConsensusQueueGen_sim", "simulate", num=100, depth=18, tiers=("quick",), cap=500),
             Gen("ConsensusQueueGen", "ConsensusQueueGen_prune_cover", "bfs", tiers=("thorough",), timeout=900, cap=20000),
